@@ -327,3 +327,58 @@ DRIVERS = [
     Driver('C03/F8.columns', cases_colnum, oracle_colnum, nchunks=4, exhaustive=True,
            rule='col2num(num2col(n)) == n for all 18278 columns, $ ignored, letters equal openpyxl', bound='all columns (complete)'),
 ]
+
+
+# ---- the same references in a workbook LOADED FROM A FILE (identically laid-out sheets) -----------------------------------------------------------
+def cases_file(tier, seed):
+    for titles in (['Jan', 'Feb 2024', "Bob's"], ['S1', 'S2'], ['Data']):
+        for style in ('plain', 'abs'):
+            yield dict(kind='file', titles=titles, style=style)
+
+
+def oracle_file(c):
+    """every sheet holds the SAME formula texts over unqualified ranges / cells; each must read its OWN sheet"""
+    import os
+    import tempfile
+    import xlcalculator
+    from drivers.common import observe
+    from drivers import c11
+    d = '$' if c['style'] == 'abs' else ''
+    sheets, expected = [], {}
+    for k, t in enumerate(c['titles']):
+        base = 10 * (k + 1)
+        vals = {'A1': base + 1, 'A2': base + 2, 'A3': base + 3, 'B1': base + 4, 'B2': base + 5, 'B3': base + 6}
+        cells = [dict(r=a, kind='n', v=v) for a, v in vals.items()]
+        f1, f2, f3 = f'SUM({d}A{d}1:{d}B{d}3)', f'{d}A{d}1+B2', f'MAX(A1:A3)-MIN({d}B{d}1:{d}B{d}3)'
+        cells += [dict(r='D1', kind='f', f=f1, cached=None), dict(r='D2', kind='f', f=f2, cached=None), dict(r='D3', kind='f', f=f3, cached=None)]
+        sheets.append((t, cells))
+        expected[f'{t}!D1'] = sum(vals.values())
+        expected[f'{t}!D2'] = vals['A1'] + vals['B2']
+        expected[f'{t}!D3'] = vals['A3'] - vals['B1']
+    tmp = tempfile.mkdtemp(dir=os.path.join(c11.ROOT, 'scratch'))
+    fn = os.path.join(tmp, 'book.xlsx')
+    try:
+        c11.write_xlsx(fn, sheets, {})
+        model = xlcalculator.ModelCompiler().read_and_parse_archive(fn)
+    except Exception as ex:      # noqa
+        return False, 'the workbook loads', f'raise {type(ex).__name__}: {str(ex)[:160]}'
+    finally:
+        try:
+            os.remove(fn)
+            os.rmdir(tmp)
+        except OSError:
+            pass
+    ev = xlcalculator.Evaluator(model)
+    obs = {}
+    for a in expected:
+        try:
+            obs[a] = observe(ev.evaluate(a))
+        except Exception as ex:      # noqa
+            obs[a] = ('raise', type(ex).__name__)
+    bad = {a: (obs[a], expected[a]) for a in expected if obs[a] != ('num', expected[a])}
+    return not bad, 'every sheet\'s formulas read that sheet\'s own cells', str(bad)[:300]
+
+
+DRIVERS.append(Driver('C03/B10.file', cases_file, oracle_file, nchunks=3, exhaustive=True,
+                      rule='workbooks written as raw SpreadsheetML with 1-3 identically laid-out sheets (titles needing quotes included) whose formulas have the SAME texts over unqualified cells and ranges, plain and $: loaded through the reader, every formula must read its own sheet',
+                      bound='3 workbooks x 2 spellings'))
